@@ -18,7 +18,10 @@ RULE = ("every format {json, orjson, yaml, msgpack, toml} x every schema of the 
 ASSUMPTIONS = [
     "representable subset (part of the enumerator): string map keys for json/orjson/msgpack/toml, no bool/None/float keys for yaml, 64-bit ints for "
     "orjson/msgpack/toml, naive times for orjson/toml, no null inside containers for toml, table at top level for toml",
-    "PyYAML's default dumper sorts mapping keys, so YAML round trips are compared without mapping order",
+    "PyYAML's default dumper sorts mapping keys and tomli_w writes sub-tables after plain keys, so YAML and TOML round trips are compared "
+    "without mapping order (OrderedDict included)",
+    "TOML has no null: a field holding None is absent from the document and comes back as its default, so it is representable only when "
+    "that default is None",
 ]
 UNIT_TIMEOUT = 900
 CHUNK = 8
@@ -113,7 +116,7 @@ def required_null(d, v, ctx):
         info = ctx.info[d]
         for (e, kind), name in zip(d[2], info["fields"]):
             x = getattr(v, name)
-            if x is None and kind == "req":
+            if x is None and kind in ("req", "dflt"):      # "dflt": the default is a non-None value of the field's domain
                 return True
             if x is not None and required_null(e, x, ctx):
                 return True
@@ -136,6 +139,11 @@ def required_null(d, v, ctx):
         return any(required_null(d[1], x, ctx) for x in v)
     if k in ("tuple", "pep585tuple"):
         return any(required_null(e, x, ctx) for e, x in zip(d[1:], v))
+    if k == "tupleu":
+        pre, mid, suf = d[1], d[2], d[3]
+        n = len(v) - len(suf)
+        return (any(required_null(e, x, ctx) for e, x in zip(pre, v)) or any(required_null(mid, x, ctx) for x in v[len(pre):n])
+                or any(required_null(e, x, ctx) for e, x in zip(suf, v[n:])))
     if k in ("dict", "mapping", "mutmapping", "ordered", "defaultdict", "mproxy", "pep585dict"):
         return any(required_null(d[2], x, ctx) for x in v.values())
     if k == "chain":
@@ -391,7 +399,7 @@ def run_unit(unit, only=None):
                     failed = True
                     continue
                 backs[ep] = r2[1]
-                ok = (ref.canon_unordered(r2[1]) == ref.canon_unordered(v)) if fmt == "yaml" else ref.same(r2[1], v, dict_order=False)
+                ok = (ref.canon_unordered(r2[1]) == ref.canon_unordered(v)) if fmt in ("yaml", "toml") else ref.same(r2[1], v, dict_order=False)
                 if not ok:
                     V("roundtrip-neq", "neq", ep, idx, f"value={v!r:.200} doc={r[1]!r:.150} back={r2[1]!r:.200}")
                     res.outcomes["roundtrip-neq"] += 1
